@@ -39,6 +39,38 @@ def toWorker (fuel : Nat) (n : LNode) (e : WEvent) (spi : List WSpi) : LNode × 
   let (w', outs) := Worker.step fuel n.w e spi
   ({ n with w := w' }, outs)
 
+/-- `maxBlockHeightBySync != nil && *maxBlockHeightBySync >= receivedBlockHeight` -/
+def alreadySynced (n : LNode) (bh : Nat) : Bool :=
+  match n.maxSync with
+  | some ms => decide (ms ≥ bh)
+  | none => false
+
+/-- the UpdateState case of the main loop followed by the worker's handling of the forwarded block -/
+def syncStep (fuel : Nat) (n : LNode) (bh : Nat) (spi : List WSpi) : LNode × List WOut :=
+  if alreadySynced n bh then (n, [])
+  else
+    let n := regStep n (.cancelOlderThan ⟨wrap64 (bh + 1), 0⟩)
+    let (n, ok) := forIssued n (wrap64 (bh + 1)) 0
+    if !ok then (n, [])
+    else
+      let (n, outs) := toWorker fuel n (.update bh) spi
+      ({ n with maxSync := some bh }, outs)
+
+/-- the election-trigger case of the main loop followed by the worker's handling -/
+def triggerStep (fuel : Nat) (n : LNode) (h v : Nat) (spi : List WSpi) : LNode × List WOut :=
+  let tv := wrap64 (v + 1)
+  let n := regStep n (.cancelOlderThan ⟨h, tv⟩)
+  let (n, ok) := forIssued n h tv
+  if !ok then (n, []) else toWorker fuel n (.election h v) spi
+
+/-- cancellation of the context given to Run: the main loop leaves its loop and the deferred
+`worker.interrupt()` shuts the registry down; the worker's `cleanupCurrentTerm()` disposes the term
+(stops the election timer) -/
+def cancelStep (n : LNode) : LNode × List WOut :=
+  let n := regStep n .shutdown
+  let outs := if n.w.term.isSome then [WOut.stopTimer] else []
+  ({ n with down := true, w := { n.w with term := none } }, outs)
+
 def step (fuel : Nat) (n : LNode) (e : LEvent) (spi : List WSpi) : LNode × List WOut :=
   if n.down then (n, [])                       -- API calls return at once, nothing runs any more
   else
@@ -46,26 +78,8 @@ def step (fuel : Nat) (n : LNode) (e : LEvent) (spi : List WSpi) : LNode × List
     match e with
     | .msg none => (n, [])                      -- the readability gate drops it
     | .msg (some m) => toWorker fuel n (.deliver m) spi
-    | .trigger h v =>
-      let tv := wrap64 (v + 1)
-      let n := regStep n (.cancelOlderThan ⟨h, tv⟩)
-      let (n, ok) := forIssued n h tv
-      if !ok then (n, []) else toWorker fuel n (.election h v) spi
-    | .sync b =>
-      let bh := b.getD 0
-      if (match n.maxSync with | some ms => decide (ms ≥ bh) | none => false) then (n, [])
-      else
-        let n := regStep n (.cancelOlderThan ⟨wrap64 (bh + 1), 0⟩)
-        let (n, ok) := forIssued n (wrap64 (bh + 1)) 0
-        if !ok then (n, [])
-        else
-          let (n, outs) := toWorker fuel n (.update bh) spi
-          ({ n with maxSync := some bh }, outs)
-    | .cancel =>
-      -- main loop: leaves its loop, deferred worker.interrupt() shuts the registry down;
-      -- worker loop: cleanupCurrentTerm() disposes the term (stops the election timer)
-      let n := regStep n .shutdown
-      let outs := if n.w.term.isSome then [WOut.stopTimer] else []
-      ({ n with down := true }, outs)
+    | .trigger h v => triggerStep fuel n h v spi
+    | .sync b => syncStep fuel n (b.getD 0) spi
+    | .cancel => cancelStep n
 
 end LeanHelix.Loops
